@@ -122,6 +122,8 @@ NotifyCompletion(S, t, now, draw) ==
         IF \A i \in 1..Len(ch) : S.ts[ch[i]].prob <= Eps
         THEN LET r == CancelMany(S, ch, now, <<>>)
              IN  [S |-> r[1], released |-> <<>>, cancelled |-> r[2], err |-> r[3]]
+        ELSE IF SumTo([i \in 1..Len(ch) |-> S.ts[ch[i]].prob], Len(ch)) # 1000000
+        THEN [S |-> S, released |-> <<>>, cancelled |-> <<>>, err |-> "prob_sum"]
         ELSE IF draw = 0 \/ ~InSeq(draw, ch)
         THEN [S |-> S, released |-> <<>>, cancelled |-> <<>>, err |-> "no_draw"]
         ELSE IF S.ts[draw].st > SCHEDULED /\ S.ts[draw].st < CANCELLED
@@ -427,9 +429,9 @@ NextSchedulerEvent(W, S, offered) ==
         adjusted == Max2(start0, nextEv)
         EndAt(tm) == Ev(E_END, tm, 0, 0, NoPlan)
         StartAt(tm) == Ev(E_SCHED_START, tm, 0, 0, NoPlan)
-        Final(tm) == IF tm >= W.fl.timeout THEN EndAt(W.fl.timeout) ELSE StartAt(tm)
+        Final(tm) == IF tm >= W.fl.timeout THEN EndAt(Max2(W.fl.timeout, now)) ELSE StartAt(tm)
     IN
-    IF start0 >= W.fl.timeout THEN EndAt(W.fl.timeout)
+    IF start0 >= W.fl.timeout THEN EndAt(Max2(W.fl.timeout, now))
     ELSE IF S.q = <<>> /\ offered = <<>> /\ running = <<>> THEN EndAt(now + 1)
     ELSE IF running # <<>> /\ W.fl.at_worker_free THEN Final(Max2(minRun + 1, now + 1))
     ELSE IF offered = <<>> \/ allBusy \/ isFull \/ noCompat
@@ -626,6 +628,18 @@ RowsOf(W, S0, e, B, S2) ==
       [] e.ty = E_LOGUTIL -> UtilRows(W, S0, now)
       [] OTHER -> <<>>
 
+\* C05: the run does not end early while work that could still run remains
+C05_NoPrematureEnd(W, S) ==
+    S.now < W.fl.timeout => \A t \in 1..NT(S) : S.ts[t].st \in {COMPLETED, CANCELLED, EVICTED}
+\* C05: a work-conserving policy on a feasible, finite workload finishes everything before the timeout
+C05_FeasibleAllDone(W, S) ==
+    W.fl.expect_all_done => /\ S.now < W.fl.timeout
+                            /\ \A t \in 1..NT(S) : S.ts[t].st \in {COMPLETED, CANCELLED}
+                            /\ \A t \in 1..NT(S) : S.ts[t].st = CANCELLED => S.ts[t].prob = 0
+C05_ByTimeout(W, S) == S.now <= W.fl.timeout
+\* deviation of the design, recorded as a known finding: a scheduler invocation that starts before the
+\* timeout and whose (simulated) runtime crosses it lets the clock overshoot by at most that runtime
+C05_SchedulerOvershoot(W, S) == S.now > W.fl.timeout /\ W.fl.sched_rt > 0 /\ S.now <= W.fl.timeout + W.fl.sched_rt
 \* C08: the end-of-run summary equals what happened to the tasks
 C08_Counters(S) ==
     /\ S.ctr.fin = Cardinality({t \in 1..NT(S) : S.ts[t].st = COMPLETED})
